@@ -836,7 +836,8 @@ pub fn transform(sentinel_out: &str, d: &str, p: &str, t: &str) -> Result<String
     Ok(out.join("\n"))
 }
 
-const OPTION_STRINGS: &[&str] = &["", "Debug", "Serialize, Deserialize", "Serialize, Deserialize, Debug, Clone, PartialEq", "a\"b", "x\ny", "\\", "@", "attr_", "$value", "#text", "$text", "ünï", " ", "@@", "{}", "text", "a_b"];
+const LONG_OPTION: &str = "Serialize, Deserialize, Debug, Clone, PartialEq, Eq, Hash, PartialOrd, Ord, Default, Serialize, Deserialize, Debug, Clone, PartialEq, Eq, Hash, PartialOrd, Ord, Default, Serialize, Deserialize, Debug, Clone, PartialEq, Eq, Hash, PartialOrd, Ord, Default, Serialize, Deserialize, Debug, Clone, PartialEq, Eq, Hash, PartialOrd, Ord, Default";
+const OPTION_STRINGS: &[&str] = &[LONG_OPTION, "a_very_long_prefix_that_goes_on_and_on_and_on_and_on_and_on_and_on_and_on_and_on_and_on_and_on_and_on_and_on_and_on_and_on_and_on_and_on_and_on_and_on_and_on_and_on_and_on_and_on_and_on_and_on_and_on_and_on_and_on_and_on_and_on_and_on_and_on_and_on_and_on_", "é", "K", "", "Debug", "Serialize, Deserialize", "Serialize, Deserialize, Debug, Clone, PartialEq", "a\"b", "x\ny", "\\", "@", "attr_", "$value", "#text", "$text", "ünï", " ", "@@", "{}", "text", "a_b"];
 
 pub fn check_c10(case: &HistoryCase, rep: &mut Report) {
     rep.evaluations += 1;
@@ -977,9 +978,16 @@ pub fn check_c10(case: &HistoryCase, rep: &mut Report) {
 
 pub fn run_c10(thorough: bool, seed: u64, shards: usize) -> (Report, String) {
     let n: u64 = if thorough { 8_000_000 } else { 320_000 };
+    let th10 = hist::threshold_cases_light();
     let rep = crate::report::sharded(shards, |shard| {
         let mut rep = Report::new();
         let per = n / shards as u64;
+        for (i, c) in th10.iter().enumerate() {
+            if i % shards == shard {
+                check_c10(c, &mut rep);
+                rep.count("threshold_cases");
+            }
+        }
         for k in 0..per {
             let idx = shard as u64 * per + k;
             let case = match k % 3 {
